@@ -2,18 +2,41 @@
 from props.c01 import _cfg
 
 TRUSTED = [
-    "SHA-224/256/384/512, HMAC, MGF1/KDF2, expand_message_xmd, AES, CBC and PKCS#7 are Lean definitions written from FIPS 180-4, RFC 2104, "
-    "PKCS#1/IEEE 1363, RFC 9380 and FIPS 197/SP 800-38A (no network: the reading of the standards is anchored on the fixed vectors of "
-    "/repo/test/test_md.c, FIPS 197 appendix C and python hashlib inside tools/)",
-    "modelled, not verified: the compression functions and the table-driven rijndaelEncrypt/rijndaelDecrypt are tied to the spec by "
-    "correspondence only; BLAKE2s (RFC 7693 definition in Spec/Blake2s.lean) is compared one-shot only",
+    "SHA-224/256/384/512, BLAKE2s (keyed and unkeyed), HMAC, MGF1/KDF2, expand_message_xmd, AES, CBC and PKCS#7 are Lean definitions written "
+    "from FIPS 180-4, RFC 7693, RFC 2104, PKCS#1/IEEE 1363, RFC 9380 and FIPS 197/SP 800-38A (no network: the reading of the standards is "
+    "anchored on the fixed vectors of /repo/test/test_md.c, FIPS 197 appendix C and python hashlib inside tools/)",
+    "class A (model mirrors the C control flow, proved = specification for all inputs, executed on every line): the Reset/Input/Result "
+    "code of sha224-256.c and sha384-512.c (one parametric model: block buffer, Message_Block_Index, length counter with the AddLength test "
+    "of the variant that is compiled, both padding cases, Computed/Corrupted exits), blake2s-ref.c init/init_key/update/final (buffer-fill "
+    "logic, t[0]/t[1] counter with carry, last-block flag, parameter checks), md_hmac, nist_kdf (md_kdf/md_mgf), md_xmd over all four SHA "
+    "streams, padEncrypt/padDecrypt/bc_aes_cbc_enc/bc_aes_cbc_dec, rijndaelKeySetupEnc + rijndaelEncrypt and rijndaelKeySetupDec + "
+    "rijndaelDecrypt (word-level mirror over the tables extracted from the C text: = FIPS 197 KeyExpansion / Cipher resp. the par. 5.3.5 "
+    "key schedule / equivalent inverse cipher = InvCipher, for every key and block), so the CBC + PKCS#7 theorems hold for the table code "
+    "end to end with no hypothesis",
+    "kernel-checked ties to the C text, regenerated on every run: the ten T-tables and rcon of rijndael-alg-fst.c (all 256 entries each "
+    "= the FIPS 197 S-box / inverse S-box / GF(2^8) products they are documented to be), K / H0 / IV / sigma constants of the three hash "
+    "files incl. both variants of sha384-512.c (= the constants of the standards' definitions), rotation amounts of the SIGMA/sigma/G "
+    "macros (python-side comparison)",
+    "class C (executable specification compared on the presented lines only): the round functions SHA224_256ProcessMessageBlock, "
+    "SHA384_512ProcessMessageBlock (compiled in its 32-bit-word emulation) and blake2s_compress - the models call the specification's "
+    "compress / F, whose constants are tied as above but whose statement-level correspondence to the C text is the per-line comparison; "
+    "makeKey2/cipherInit glue of rijndael-api-fst.c; the preset-state harness ops md_stream_len / b2s_ctr "
+    "write into library structs (counter located by a probe of the library itself)",
 ]
 ASSUMPTIONS = [
-    "message bit length below 2^64 (SHA-256 streaming theorem)",
-    "CBC round-trip theorem takes 'the block decryption inverts the block encryption' as a hypothesis",
+    "message bit length below 2^64 (SHA-224/256 streaming theorems) resp. below 2^96 (SHA-384/512: the first length at which the compiled "
+    "AddLength test fires, finding C14-ext-1; FIPS 180-4 allows 2^128); BLAKE2s: fewer than 2^64 - 64 bytes",
+    "md_map_* pass a size_t length to SHA*Input(unsigned int): messages of 4 GiB and more are outside the presented range",
+    "AES-CBC theorems: 16-byte IV, key of 16/24/32 bytes (other key sizes: rejection is modelled and compared)",
 ]
+# lean/RelicVerif/Gen/AesTables.lean (the ten lookup tables and rcon of src/bc/rijndael-alg-fst.c) and Gen/MdConsts.lean (K / H0 / IV / sigma
+# of the hash implementations) are regenerated from the C text on every run
+GENERATED = ["aes", "md"]
 RULE = ("all message lengths 0..300 (every residue mod 64 and mod 128), key lengths 0..200, output lengths 0..3*hLen+5 and the 255*hLen "
-        "boundary, AES key sizes 16/24/32 (+ invalid), plaintext lengths 0..80, every single-byte corruption of the last ciphertext block; "
+        "boundary, AES key sizes 16/24/32 (+ invalid), plaintext lengths 0..80, every single-byte corruption of the last ciphertext block, "
+        "controlled alterations of every part of the PKCS#7 padding; incremental APIs with structured chunkings (single, byte-wise, cuts "
+        "before/at/after block boundaries, empty chunks, chunks longer than two blocks, Result/final in between), BLAKE2s digest lengths "
+        "1..32 and key lengths 0..32 (+ invalid), preset counters at every value where a counter test can fire; "
         "non-trivial = distinct line with a non-error result")
 
 
@@ -52,6 +75,128 @@ def gen_lines(rng, tier):
                 out.append("aes_enc %d %s %s %s" % (max(0, cap - 1), key.hex(), iv.hex(), hexs(pt)))   # buffer too short
     for kl in (0, 15, 17, 33):
         out.append("aes_enc 64 %s %s %s" % (hexs(rng.bytes(kl)), rng.bytes(16).hex(), rng.bytes(20).hex()))
+    # FIPS 197 appendix C through CBC with a zero IV (the first ciphertext block is the block cipher output), extreme keys and blocks
+    pt = "00112233445566778899aabbccddeeff"
+    for kl in (16, 24, 32):
+        out.append("aes_enc 32 %s %s %s" % (bytes(range(kl)).hex(), "00" * 16, pt))
+        for kb, pb in ((0x00, 0x00), (0xff, 0xff), (0x00, 0xff), (0xff, 0x00), (0x52, 0x52), (0x63, 0x63)):
+            out.append("aes_enc 48 %s %s %s" % (("%02x" % kb) * kl, "00" * 16, ("%02x" % pb) * 32))
+    return out
+
+
+def _splits(rng, n, bs):
+    """structured chunkings of a message of n bytes: lists of chunk lengths (sum = n)"""
+    out = [[n]]
+    if n >= 1:
+        out.append([1, n - 1])
+        out.append([n - 1, 1])
+    if 1 < n <= 3 * bs // 2:
+        out.append(_small(n))                                # byte at a time (the oracle takes at most 64 tokens per line: 1- to 4-byte chunks)
+    for cut in (bs - 1, bs, bs + 1, 2 * bs):                   # a chunk ending just before / at / after a block boundary
+        if 0 < cut < n:
+            out.append([cut, n - cut])
+    if n > 2:
+        a = 1 + rng.below(n - 1)
+        b = a + rng.below(n - a)
+        out.append([a, b - a, n - b])                        # random three-way split (may contain an empty chunk)
+    out.append([0, n])
+    out.append([n, 0])
+    if n > 4:
+        out.append([n // 3, 0, 0, n - n // 3])
+    return out
+
+
+def _small(n):
+    c = (n + 55) // 56
+    return [c] * (n // c) + ([n % c] if n % c else [])
+
+
+def _toks(msg, lens):
+    t, o = [], 0
+    for l in lens:
+        t.append(hexs(msg[o:o + l]))
+        o += l
+    return t
+
+
+def gen_stream_lines(rng, tier):
+    """the incremental APIs: SHA*Reset/Input/Result and blake2s_init[_key]/update/final with structured chunkings"""
+    q = tier == "quick"
+    out = []
+    for alg, bs, lb in (("sh224", 64, 8), ("sh256", 64, 8), ("sh384", 128, 16), ("sh512", 128, 16)):
+        pb = bs - lb                                          # first length whose padding needs an extra block is pb
+        lens = [0, 1, 2, pb - 2, pb - 1, pb, pb + 1, bs - 2, bs - 1, bs, bs + 1, bs + pb - 1, bs + pb, bs + pb + 1, 2 * bs - 1, 2 * bs,
+                2 * bs + 1, 3 * bs + 5, 4 * bs]
+        if not q:
+            lens += list(range(3, bs + 20)) + [5 * bs + rng.below(bs) for _ in range(10)]
+        for n in lens:
+            msg = rng.bytes(n)
+            sp = _splits(rng, n, bs)
+            if q:
+                sp = [sp[0]] + [sp[1 + rng.below(len(sp) - 1)] for _ in range(2)] + ([_small(n)] if n in (pb, bs, bs + 1) else [])
+            for lens_ in sp:
+                out.append("md_stream %s %s" % (alg, " ".join(_toks(msg, lens_))))
+        # chunks longer than one / two blocks inside a longer message, block-aligned and not
+        for lens_ in ([2 * bs + 3, bs - 3], [3, 2 * bs, bs - 3], [bs, bs, bs], [bs // 2, bs // 2, bs // 2, bs // 2 + pb]):
+            msg = rng.bytes(sum(lens_))
+            out.append("md_stream %s %s" % (alg, " ".join(_toks(msg, lens_))))
+        # Result in between: twice (same digest), then empty Input (allowed), then data (state error), Result first
+        m = rng.bytes(pb + 3)
+        for pat in (["="], [hexs(m), "="], [hexs(m), "=", "."], [hexs(m), "=", "00"], [hexs(m[:5]), "=", hexs(m[5:])], ["=", hexs(m)],
+                    ["=", ".", "="], [hexs(m), "=", "00", "="], [".", "=", "."]):
+            out.append("md_stream %s %s" % (alg, " ".join(pat)))
+        out.append("md_stream %s" % alg)                       # no Input call at all
+        # the counter test of SHA*_AddLength (counter preset just below the values where the test of the compiled code fires:
+        # 2^64 for sha224-256.c; k*2^96 and 2^128 for the 32-bit-word variant of sha384-512.c; 2^64 must NOT fire there)
+        if bs == 64:
+            presets = [(1 << 64) - 8, (1 << 64) - 16, (1 << 64) - 24, (1 << 32) - 8, (1 << 63), 0x1234567800]
+        else:
+            presets = [(1 << 128) - 8, (1 << 128) - 16, (1 << 96) - 8, (1 << 96) - 16, 3 * (1 << 96) - 8, 7 * (1 << 96) - 8, 8 * (1 << 96) - 8,
+                       9 * (1 << 96) - 8, (1 << 64) - 8, (1 << 32) - 8, (1 << 96) + (1 << 32) - 8, (1 << 127), 0x1234567800]
+        for pv in presets:
+            for lens_ in ([1], [2], [1, 1, 1], [3], [bs + 3]):
+                msg = rng.bytes(sum(lens_))
+                out.append("md_stream_len %s %x %s" % (alg, pv, " ".join(_toks(msg, lens_))))
+    # BLAKE2s
+    for ol in ([1, 20, 32] if q else [1, 2, 16, 20, 28, 31, 32]):
+        for kl in ([0, 1, 32] if q else [0, 1, 16, 31, 32]):
+            key = rng.bytes(kl)
+            lens = [0, 1, 63, 64, 65, 127, 128, 129, 192, 193, 300]
+            if not q:
+                lens += list(range(2, 63, 3)) + [256, 257, 500]
+            for n in lens:
+                msg = rng.bytes(n)
+                sp = _splits(rng, n, 64)
+                if q:
+                    sp = [sp[0], sp[1 + rng.below(len(sp) - 1)]]
+                for lens_ in sp:
+                    out.append("b2s_stream %d %s %s" % (ol, hexs(key), " ".join(_toks(msg, lens_))))
+                out.append("b2s %d %s %s" % (ol, hexs(key), hexs(msg)))
+    # the fill logic of blake2s_update: left + inlen below / at / just above the block, and the direct-from-input loop bounds
+    for left in (0, 1, 10, 63, 64):
+        fill = 64 - left
+        for inl in sorted({1, fill - 1, fill, fill + 1, fill + 63, fill + 64, fill + 65, fill + 128, fill + 129}):
+            if inl <= 0:
+                continue
+            for tail in (0, 1):
+                lens_ = ([left] if left else []) + [inl] + ([tail] if tail else [])
+                msg = rng.bytes(sum(lens_))
+                out.append("b2s_stream 32 . %s" % " ".join(_toks(msg, lens_)))
+    m = rng.bytes(70)
+    for pat in (["="], [hexs(m), "="], [hexs(m), "=", "."], [hexs(m), "=", "00"], ["=", hexs(m)]):
+        out.append("b2s_stream 32 . %s" % " ".join(pat))
+        out.append("b2s_stream 20 %s %s" % (hexs(rng.bytes(16)), " ".join(pat)))
+    out.append("b2s_stream 32 .")
+    out.append("b2s_stream 32 %s" % hexs(rng.bytes(32)))
+    # rejected parameters: outlen 0 / 33, key of 33 bytes
+    for ol, kl in ((0, 0), (33, 0), (0, 16), (33, 16), (32, 33), (16, 40)):
+        out.append("b2s_stream %d %s %s" % (ol, hexs(rng.bytes(kl)), hexs(rng.bytes(5))))
+        out.append("b2s %d %s %s" % (ol, hexs(rng.bytes(kl)), hexs(rng.bytes(5))))
+    # the carry t[0] -> t[1] of blake2s_increment_counter (state preset below the 2^32 boundary)
+    for t0, t1 in ((0xffffffc0, 0), (0xffffff80, 0), (0xffffffc0, 0xffffffff), (0xffffffff, 5), (0xffffffc1, 1), (0x10, 7), (0, 0)):
+        for lens_ in ([10], [64], [65], [64, 64, 1], [200], [63, 1, 1]):
+            msg = rng.bytes(sum(lens_))
+            out.append("b2s_ctr 32 %x %x %s" % (t0, t1, " ".join(_toks(msg, lens_))))
     return out
 
 
@@ -75,6 +220,28 @@ def gen_dec_lines(rng, tier, enc_pairs):
         ivb = bytearray.fromhex(iv)
         ivb[15] ^= rng.choice([1, 2, 0x10, 0xff])
         out.append("aes_dec %d %s %s %s" % (n, key, ivb.hex(), ct))
+        # controlled alterations of single bytes of the LAST PLAINTEXT block (through the preceding ciphertext block, or the IV for
+        # a one-block message): the first padding byte, a middle one, the last data byte (still well formed), the padding length
+        # byte raised / lowered by one, set to 0 and to 17
+        pl = 0 if t[4] == "." else len(t[4]) // 2
+        padlen = 16 - pl % 16
+        def alter(pos, mask):
+            if n >= 32:
+                c = bytearray(b)
+                c[n - 32 + pos] ^= mask
+                return "aes_dec %d %s %s %s" % (n, key, iv, c.hex())
+            v = bytearray.fromhex(iv)
+            v[pos] ^= mask
+            return "aes_dec %d %s %s %s" % (n, key, v.hex(), ct)
+        out.append(alter(16 - padlen, 1 << rng.below(8)))                       # first padding byte
+        if padlen > 2:
+            out.append(alter(16 - padlen + 1 + rng.below(padlen - 2), 0x80))    # a middle padding byte
+        if padlen < 16:
+            out.append(alter(16 - padlen - 1, 1 << rng.below(8)))               # last data byte: accepted, other plaintext
+        out.append(alter(15, padlen ^ (padlen + 1)))                            # length byte + 1
+        out.append(alter(15, padlen ^ (padlen - 1)))                            # length byte - 1 (0 for padlen 1)
+        out.append(alter(15, padlen))                                           # length byte 0
+        out.append(alter(15, padlen ^ 17))                                      # length byte 17
         out.append("aes_dec %d %s %s %s" % (n, key, iv, ct[:-2]))    # not a multiple of the block size
     out.append("aes_dec 16 %s %s ." % (rng.bytes(16).hex(), rng.bytes(16).hex()))
     return out
@@ -96,6 +263,7 @@ def streams(ctx, scale=1):
     lines = ["cfg"] + CORPUS
     for _ in range(scale):
         lines += gen_lines(ctx.rng, ctx.tier)
+        lines += gen_stream_lines(ctx.rng, ctx.tier)
     # the decryption stream is derived from the implementation's own ciphertexts
     enc = [l for l in lines if l.startswith("aes_enc")]
     outs = check.run_oracle(exe, ["cfg"] + enc)[1:]
@@ -118,6 +286,19 @@ def nontrivial(r):
 def matches_finding(f, r):
     t = r["line"].split()
     pred = f.get("pred")
+    if pred == "sha512_refuses_at_multiples_of_2_96":
+        # exactly: SHA-384/512, counter preset p, n bytes fed; walking the counter in steps of 8 bits, the FIRST value at which the
+        # compiled test (low 96 bits zero and top word < 8) fires is k*2^96 with 1 <= k <= 7 (not the true wrap to 0), and the
+        # library reported an error
+        if t[0] != "md_stream_len" or t[1] not in ("sh384", "sh512") or r["got"] != "err":
+            return False
+        p = int(t[2], 16)
+        n = sum(0 if x == "." else len(x) // 2 for x in t[3:])
+        for j in range(1, n + 1):
+            v = (p + 8 * j) % (1 << 128)
+            if v % (1 << 96) == 0 and v >> 96 < 8:
+                return v != 0
+        return False
     if pred == "aes_empty_plaintext":
         if t[0] == "aes_enc" and t[4] == ".":
             return True
